@@ -34,6 +34,21 @@ CLAIMED = {
         'note': TB + ' Assumes: bad_alloc from ordinary allocation and the embedded-network integrity error are out of scope (named exemptions).',
         'technique': 'custom static analysis: null typestate dataflow + exception-flow + must-pass-through/who-may-call over clang AST/CFG/call graph',
     },
+    'C06': {
+        'text': 'Clause-limited static decision (level "other"): (1) limit arithmetic of computeTimeLimit: the reaching definitions of the soft '
+                'and hard limit are clamp(x, 1, time - margin); interval abstract interpretation with input-box subdivision proves '
+                'time - min(BufferTime, time*9/10) >= 1 over 1..10^7 x the declared BufferTime range, the hard/soft factor interval '
+                '(from the Param<> template bounds) is >= 1, the allocation formula stays inside int, movetime gives soft = hard; hence '
+                '1 <= soft <= hard <= budget for the whole stated domain; (2) ordering: limits are computed from this go\'s position, '
+                'stop installs the zero limit before waiting, ponderhit installs limits before releasing, nothing modifies limits after '
+                'the hand-over; (3) polling structure: the stop test dominates every recursive descent, every made node decrements the '
+                'poll counter, poll interval <= 1000 nodes, shouldStop compares elapsed time with the limit selected by searchNeedMoreTime. '
+                'Right level: the inequality chain is an arithmetic fact over a stated finite domain (exactly what interval analysis '
+                'decides); the latency clause is timing and is not claimed.',
+        'design_ref': 'DESIGN.md section 2, C06',
+        'note': TB + ' Does not decide wall-clock latency ("within one polling interval").',
+        'technique': 'custom static analysis: reaching-definition provenance, interval abstract interpretation with subdivision over the stated input domain, dominance-based ordering, poll-structure pairing',
+    },
     'C08': {
         'text': 'Clause-limited static decision (level "other"): (1) raw slot words are touched only by the xor codec, the slot '
                 'constructors and the tablebase byte accessors; table[] is indexed only through getIndex(key)+i (i below the bucket '
